@@ -246,7 +246,7 @@ def processCm (cfg : Cfg) (s : St) (now : Nat) (mid : MessageId) (dest : Nat) (d
       match s.snd.get? h with
       | some b =>
         if b.state == S_WAITING_CTS then
-          { st := { s with snd := s.snd.set h { b with state := S_FINISHED, deadline := now } } }
+          { st := { s with snd := s.snd.set h { b with state := S_FINISHED, deadline := now } }, outs := [.wake] }
         else { st := s }
       | none => { st := s }
     else { st := s, err := some .RuntimeError }
